@@ -70,6 +70,10 @@ CLAIMS = {
          "the filter bytes are verified by a single scan (ScanFilter) that checks the prescribed unary quotient / terminator / P remainder bits MSB-first / zero padding for every sorted value -- byte equality with the BIP158-style encoding; N/P/NP serialisations as CompactSize concatenations; rebuilt filters identical; block filter builder content (outpoints of non-coinbase inputs + non-empty scripts, de-duplicated), key, P/M, filter hash and header; builder error latch histories",
          "small-scope model checking (MC_GCS) plus TLC trace validation",
          "as C13"),
+ "C18": ("DESIGN.md §4 C18",
+         "TLA+ spec TxSort: BIP69 as a relation (ordered permutation of whole elements, other fields equal, ties free); MC_TxSort checks the relation is non-empty and idempotent over a key alphabet with ties; real Sort / InPlaceSort / IsSorted calls on all permutations of small element sets with ties and random transactions up to hundreds of elements, with deep snapshots of the original before/after and after mutating the copy, judged by TLC trace validation",
+         "small-scope model checking of the relation plus TLC trace validation",
+         "non-negative amounts"),
 }
 
 NOT_YET = "check not built yet in this round; see DESIGN.md for the planned TLA+ model"
